@@ -7,7 +7,7 @@
 EXTENDS Bytes, TLC, Json
 
 \* ---------------- encoder ----------------
-\* op = <<"u8"|"u16"|"u32"|"u64"|"u128"|"raw", bytes>> or <<"align">>
+\* op = <<"u8"|"u16"|"u32"|"u64"|"u128"|"raw"|"ch", bytes>> or <<"align">>
 Width == [u8 |-> 1, u16 |-> 2, u32 |-> 4, u64 |-> 8, u128 |-> 16]
 EncOp(buf, op) == IF op[1] = "align" THEN Pad8(buf) ELSE buf \o op[2]
 RECURSIVE EncPrefix(_, _)
@@ -35,11 +35,13 @@ DecStep(stk, op) ==
                                  [s |-> Abs(fr), e |-> Abs(fr) + op[2] - op[3], o |-> 0])
     [] op[1] = "rd"    -> SetTop(stk, [fr EXCEPT !.o = @ + op[2]])
     [] op[1] = "pop"   -> SubSeq(stk, 1, Len(stk) - 1)
-\* what the real decoder must report after the op: <<Offset(), BaseOffset(), Length(), value>>
+\* what the real decoder must report after the op: <<Offset(), BaseOffset(), Length(), value, Bytes()>>
+\* (Bytes() is the unread rest of the current frame: it starts at the cursor and never reaches past the frame)
 DecObs(n, before, after, op) ==
   LET fr == Top(after) IN
   << fr.o, fr.s, (fr.e - fr.s) - fr.o,
-     IF op[1] = "rd" THEN Sub(Msg(n), Abs(Top(before)) + 1, op[2]) ELSE <<>> >>
+     IF op[1] = "rd" THEN Sub(Msg(n), Abs(Top(before)) + 1, op[2]) ELSE <<>>,
+     Sub(Msg(n), Abs(fr) + 1, (fr.e - fr.s) - fr.o) >>
 RECURSIVE DecRun(_, _, _, _)
 DecRun(n, stk, ops, k) ==      \* sequence of expected observations for ops[k..]
   IF k > Len(ops) THEN <<>>
